@@ -28,8 +28,10 @@ RULE = ("Alphabet: 33 line kinds (block keyword lines in en and de, step lines g
         "find. E3: every single-line mutation (insert each of the 33 line kinds at each position, delete, duplicate, "
         "swap adjacent, 3 truncations per line) of rendered valid documents (every 16th of all feature shapes with "
         "<= 4 blocks in quick, all of them in thorough, plus step/scenario/rule/tag texts), and 9 catalogued fault "
-        "kinds inserted at every position where the reference acceptor calls them a fault (there: ParserError with "
-        ".line == injected line). Invariant everywhere: model/None or ParserError with 1 <= line <= number of lines, "
+        "kinds (second Feature, text after steps, Examples outside an outline, And/But without predecessor, row with "
+        "one cell too many/few, malformed tag token, second Background, Background after a Scenario, table/doc-string "
+        "before any step) inserted at every position where the reference acceptor calls them a fault (there: "
+        "ParserError with .line == injected line). Invariant everywhere: model/None or ParserError with 1 <= line <= number of lines, "
         "never another exception, at most one action call per line and pass. A history is non-trivial (counted "
         "distinct by (entry, abstract state, line kind)) when the line changes the abstract state or raises; a "
         "mutation is non-trivial when it changes the outcome of the document (counted by fault kind / mutation kind "
